@@ -618,7 +618,7 @@ impl RoutingCheck {
                         n.subs.push(SubMsg { id: 1, payload: Binary::default(), msg: m, gas_limit: None, reply_on: ReplyOn::Never });
                     } else {
                         if self_funded {
-                            let m: CosmosMsg<XMsg> = WasmMsg::Execute { contract_addr: chain[i].to_string(), msg: to_json_binary(&PMsg { n: 53 }).unwrap(), funds: vec![coin(1, "eth")] }.into();
+                            let m: CosmosMsg<XMsg> = WasmMsg::Execute { contract_addr: chain[i].to_string(), msg: to_json_binary(&PMsg { n: 53 }).unwrap(), funds: vec![coin(1, "eth"), coin(2, "TOKEN")] }.into();
                             n.subs.push(SubMsg { id: 4, payload: Binary::default(), msg: m, gas_limit: None, reply_on: ReplyOn::Never });
                         }
                         if case.sibling {
@@ -709,11 +709,12 @@ impl RoutingCheck {
                 let mut mine = mine;
                 if self_funded {
                     // the funds attached to the self-call: one bank send from the contract to itself
-                    let transfer: CosmosMsg<XMsg> = BankMsg::Send { to_address: emitter.to_string(), amount: vec![coin(1, "eth")] }.into();
+                    // (two coins, not in denomination order: the list must arrive as attached)
+                    let transfer: CosmosMsg<XMsg> = BankMsg::Send { to_address: emitter.to_string(), amount: vec![coin(1, "eth"), coin(2, "TOKEN")] }.into();
                     let (tslot, top, tpayload) = expected_log(&transfer);
                     let is_transfer = |e: &LogEntry| e.slot == tslot && e.op == top && e.payload == tpayload && e.sender == emitter.as_str();
                     if !log.iter().any(is_transfer) {
-                        fail!("C17:message-not-delivered", "{:?} from {:?}: the contract called itself with 1eth attached, but the bank module never received that transfer; log: {:?}", k, case.origin, log);
+                        fail!("C17:message-not-delivered", "{:?} from {:?}: the contract called itself with [1eth, 2TOKEN] attached, but the bank module never received that transfer; log: {:?}", k, case.origin, log);
                     }
                     if let Some(p) = mine.iter().position(|e| is_transfer(e)) {
                         mine.remove(p);
